@@ -54,6 +54,9 @@ THEOREMS = [_P + n for n in [
     "peek_guarded_no_index_error", "peek_off_by_one_guard_index_error", "parser_forward_lookaheads_guarded",
     "Find.split_join_round_trip", "Find.find_parser_keys_agree", "Find.find_parser_no_key_error", "Find.find_parser_whitespace_split_key_error",
     "Find.find_parser_key_functions_known",
+    "option_loop_terminates", "option_loop_relying_on_raise_diverges", "option_loop_relying_on_raise_immediate",
+    "parser_loops_progress_or_break",
+    "generator_unguarded_optional_accesses_known",
 ]]
 
 # step budgets for the search oracle, calibrated on the clean tree with ≥ 10x margin (cov["calibration"] in the evidence
@@ -247,6 +250,244 @@ def lookahead_facts(chk: Check):
     return {"sites": sites, "next_users": sorted(set(next_users))}
 
 
+_MATCHERS = {"_match", "_match_set", "_match_texts", "_match_text_seq", "_match_pair", "_match_l_paren", "_match_r_paren"}
+
+
+def _self_call(n, names=None):
+    ok = isinstance(n, ast.Call) and isinstance(n.func, ast.Attribute) and isinstance(n.func.value, ast.Name) and n.func.value.id == "self"
+    return ok and (names is None or n.func.attr in names)
+
+
+def _consuming_if_truthy(e, env) -> bool:
+    """does a truthy value of expression `e` imply that the cursor moved forward?  (a successful `_match*` with advance,
+    `_advance_any`, a truthy result of a `self._parse_*` sub-parser — the Consuming contract the harness monitors — or a
+    variable assigned from one of those)"""
+    if isinstance(e, ast.NamedExpr):
+        return _consuming_if_truthy(e.value, env)
+    if isinstance(e, ast.Name):
+        return env.get(e.id, False)
+    if isinstance(e, ast.BoolOp) and isinstance(e.op, ast.And):
+        return any(_consuming_if_truthy(v, env) for v in e.values)
+    if isinstance(e, ast.BoolOp) and isinstance(e.op, ast.Or):
+        return all(_consuming_if_truthy(v, env) for v in e.values)
+    if isinstance(e, ast.Call):
+        if _self_call(e, _MATCHERS):
+            return not any(kw.arg == "advance" and isinstance(kw.value, ast.Constant) and kw.value.value is False for kw in e.keywords)
+        if _self_call(e, {"_advance_any"}):
+            return True
+        if _self_call(e) and e.func.attr.startswith("_parse_"):
+            return True
+        if isinstance(e.func, ast.Name) and e.func.id.startswith("parse_"):
+            return True      # a local closure `parse_branch()` …
+    return False
+
+
+def _branch_consumes(test, polarity, env) -> bool:
+    if isinstance(test, ast.UnaryOp) and isinstance(test.op, ast.Not):
+        return _branch_consumes(test.operand, not polarity, env)
+    if isinstance(test, ast.Compare) and len(test.ops) == 1 and isinstance(test.comparators[0], ast.Constant) and test.comparators[0].value is None:
+        if isinstance(test.ops[0], ast.IsNot):
+            return polarity and _consuming_if_truthy(test.left, env)
+        if isinstance(test.ops[0], ast.Is):
+            return (not polarity) and _consuming_if_truthy(test.left, env)
+    if polarity:
+        return _consuming_if_truthy(test, env)
+    if isinstance(test, ast.BoolOp) and isinstance(test.op, ast.Or):
+        return False
+    return False
+
+
+def _loop_paths(stmts, consumed, raised, env, out):
+    """symbolic walk of a loop body: appends (consumed, raised, exits_after_raise) for every path that CONTINUES the loop;
+    returns the list of states that fall through the end of `stmts`"""
+    states = [(consumed, raised)]
+    for st in stmts:
+        if not states:
+            break
+        nxt = []
+        for (c, r) in states:
+            if isinstance(st, (ast.Break, ast.Return, ast.Raise)):
+                if r:
+                    out["exit_after_raise"] = True
+                continue
+            if isinstance(st, ast.Continue):
+                out["paths"].append((c, r))
+                continue
+            if isinstance(st, ast.Expr) and _self_call(st.value, {"raise_error"}):
+                out["has_raise"] = True
+                nxt.append((c, True))
+                continue
+            if isinstance(st, ast.Expr) and _self_call(st.value, {"_advance"}) and not (
+                    st.value.args and isinstance(st.value.args[0], ast.UnaryOp)):
+                nxt.append((True, r))
+                continue
+            if isinstance(st, ast.Assign) and len(st.targets) == 1 and isinstance(st.targets[0], ast.Name):
+                env[st.targets[0].id] = _consuming_if_truthy(st.value, env)
+                nxt.append((c, r))
+                continue
+            if isinstance(st, ast.Assign) and len(st.targets) == 1 and isinstance(st.targets[0], ast.Tuple) and isinstance(st.value, ast.Call):
+                # `key, expression = parser(self)`: the results of a dispatched table entry (truthy ⇒ progress is the monitored
+                # per-entry contract of table_loop_terminates)
+                for el in st.targets[0].elts:
+                    if isinstance(el, ast.Name):
+                        env[el.id] = True
+                nxt.append((c, r))
+                continue
+            if isinstance(st, ast.If):
+                tb = _loop_paths(st.body, c or _branch_consumes(st.test, True, env), r, dict(env), out)
+                fb = _loop_paths(st.orelse, c or _branch_consumes(st.test, False, env), r, dict(env), out) if st.orelse \
+                    else [(c or _branch_consumes(st.test, False, env), r)]
+                nxt += tb + fb
+                continue
+            if isinstance(st, ast.Try):
+                nxt += _loop_paths(st.body + st.orelse + st.finalbody, c, r, env, out)
+                continue
+            if isinstance(st, (ast.With,)):
+                nxt += _loop_paths(st.body, c, r, env, out)
+                continue
+            nxt.append((c, r))
+        # merge
+        states = sorted(set(nxt))
+    return states
+
+
+def parser_loop_facts(chk: Check):
+    """EVERY `while` loop of parser.py and parsers/*.py with its test and a classification of how a continuing iteration
+    makes progress:
+      progress          every path that continues the loop consumed a token (in the loop test, by `_advance()`, or on a branch
+                        guarded by a successful `_match*` / truthy sub-parser result)
+      break-after-raise it calls raise_error and every such path then leaves the loop (break / return) or had consumed a token
+      relies-on-raise   some path calls raise_error and then continues the loop without having consumed anything: terminates
+                        only if raise_error raises (IMMEDIATE) — the C05-6 shape
+      result-driven     no raise_error; whether it continues depends on sub-parser results / other state (covered by the run-time
+                        Consuming monitor and the step budget, not statically)"""
+    import glob
+    rows = []
+    for path in [os.path.join(REPO, "sqlglot", "parser.py")] + sorted(glob.glob(os.path.join(REPO, "sqlglot", "parsers", "*.py"))):
+        mod = os.path.basename(path)[:-3]
+        try:
+            tree = ast.parse(open(path, encoding="utf-8").read())
+        except Exception:  # noqa
+            chk.broken.append({"kind": "translator", "what": f"C05 translator: cannot parse {path}"})
+            continue
+        for cls in [n for n in tree.body if isinstance(n, ast.ClassDef)]:
+            for fn in [n for n in ast.walk(cls) if isinstance(n, ast.FunctionDef)]:
+                stack = list(fn.body)
+                loops = []
+                while stack:
+                    n = stack.pop(0)
+                    if isinstance(n, (ast.FunctionDef, ast.Lambda)):
+                        continue
+                    if isinstance(n, ast.While):
+                        loops.append(n)
+                    stack = list(ast.iter_child_nodes(n)) + stack
+                for lp in loops:
+                    out = {"paths": [], "has_raise": False, "exit_after_raise": False}
+                    c0 = _branch_consumes(lp.test, True, {})
+                    fall = _loop_paths(lp.body, c0, False, {}, out)
+                    paths = out["paths"] + fall
+                    if any(r and not c for c, r in paths):
+                        kind = "relies-on-raise"
+                    elif out["has_raise"]:
+                        kind = "break-after-raise"
+                    elif paths and all(c for c, _ in paths):
+                        kind = "progress"
+                    elif not paths:
+                        kind = "progress"      # the body never continues
+                    else:
+                        kind = "result-driven"
+                    rows.append((f"{mod}.{fn.name}", " ".join(_src(lp.test).split())[:90], kind))
+    return rows
+
+
+def generator_access_facts(chk: Check):
+    """generator methods (`*_sql(self, expression)` of generator.py and generators/*.py, plus module-level helpers with the
+    same signature) that reach into the node without a guard: `expression.args["x"]` (KeyError / None) and attribute chains
+    `expression.this.<attr>`, `expression.expression.<attr>`, `expression.args.get("x").<attr>` not dominated by a test that
+    mentions the inner expression.  Each row says whether the arg is required or optional in the node class (live arg_types)."""
+    import glob
+    _, exp, *_ = sg()
+    bykey: dict = {}
+
+    def allsub(c):
+        for sc in c.__subclasses__():
+            yield sc
+            yield from allsub(sc)
+
+    base = getattr(exp, "Expr", None) or getattr(exp, "Expression")
+    for c in allsub(base):
+        k = getattr(c, "key", None)
+        if k:
+            bykey.setdefault(k, c)
+    rows = []
+    for path in [os.path.join(REPO, "sqlglot", "generator.py")] + sorted(glob.glob(os.path.join(REPO, "sqlglot", "generators", "*.py"))):
+        mod = os.path.basename(path)[:-3]
+        try:
+            tree = ast.parse(open(path, encoding="utf-8").read())
+        except Exception:  # noqa
+            chk.broken.append({"kind": "translator", "what": f"C05 translator: cannot parse {path}"})
+            continue
+        fns = [(f"{mod}.{fn.name}", fn) for fn in tree.body if isinstance(fn, ast.FunctionDef)]
+        for cls in [n for n in ast.walk(tree) if isinstance(n, ast.ClassDef)]:
+            fns += [(f"{mod}.{cls.name}.{fn.name}", fn) for fn in cls.body if isinstance(fn, ast.FunctionDef)]
+        for qual, fn in fns:
+            params = [a_.arg for a_ in fn.args.args]
+            if len(params) < 2 or params[0] != "self" or not fn.name.endswith("_sql"):
+                continue
+            ev = params[1]
+            klass = bykey.get(fn.name[:-4].lstrip("_"))
+
+            def inner_of(node):
+                if isinstance(node, ast.Attribute) and isinstance(node.value, ast.Name) and node.value.id == ev and node.attr in ("this", "expression"):
+                    return node.attr
+                if isinstance(node, ast.Call) and isinstance(node.func, ast.Attribute) and node.func.attr == "get" \
+                        and _src(node.func.value) == f"{ev}.args" and node.args and isinstance(node.args[0], ast.Constant):
+                    return str(node.args[0].value)
+                return None
+
+            def kind_of(arg):
+                if klass is None:
+                    return "unknown-class"
+                return "required" if klass.arg_types.get(arg) else "optional"
+
+            def visit(node, guards):
+                if isinstance(node, (ast.FunctionDef, ast.Lambda)) and node is not fn:
+                    for ch in ast.iter_child_nodes(node):
+                        visit(ch, guards)
+                    return
+                if isinstance(node, (ast.If, ast.While)):
+                    visit(node.test, guards)
+                    for st in node.body:
+                        visit(st, guards + [_src(node.test)])
+                    for st in node.orelse:
+                        visit(st, guards + ["not (" + _src(node.test) + ")"])
+                    return
+                if isinstance(node, ast.IfExp):
+                    visit(node.test, guards)
+                    visit(node.body, guards + [_src(node.test)])
+                    visit(node.orelse, guards + ["not (" + _src(node.test) + ")"])
+                    return
+                if isinstance(node, ast.BoolOp) and isinstance(node.op, ast.And):
+                    acc = list(guards)
+                    for v in node.values:
+                        visit(v, acc)
+                        acc = acc + [_src(v)]
+                    return
+                if isinstance(node, ast.Subscript) and _src(node.value) == f"{ev}.args" and isinstance(node.ctx, ast.Load) \
+                        and isinstance(node.slice, ast.Constant):
+                    rows.append((qual, " ".join(_src(node).split()), kind_of(str(node.slice.value))))
+                if isinstance(node, ast.Attribute):
+                    arg = inner_of(node.value)
+                    if arg is not None and not any(_src(node.value) in g for g in guards):
+                        rows.append((qual, " ".join(_src(node).split()), kind_of(arg)))
+                for ch in ast.iter_child_nodes(node):
+                    visit(ch, guards)
+
+            for st in fn.body:
+                visit(st, [])
+    return sorted(set(rows))
+
+
 def find_parser_facts(chk: Check):
     """the two key functions of Parser._find_parser (trie key of a token text, dict key of the consumed texts) and the key
     function every SHOW_TRIE / SET_TRIE is built with, by ast"""
@@ -372,6 +613,15 @@ def translate(chk: Check) -> str:
         f"def findParserTrieKey : String := {lean_str(find_parser_facts(chk)['trie_key'])}\n",
         f"def findParserDictKey : String := {lean_str(find_parser_facts(chk)['dict_key'])}\n",
         "def trieBuilds : List (String × String) := [" + ", ".join(f"({lean_str(a_)}, {lean_str(b_)})" for a_, b_ in find_parser_facts(chk)["builds"]) + "]\n",
+        "-- every `while` loop of parser.py / parsers/*.py: (method, loop test, how a continuing iteration makes progress)\n",
+        "def parserLoops : List (String × String × String) := [\n" + ",\n".join(
+            f"  ({lean_str(f)}, {lean_str(t_)}, {lean_str(k)})" for f, t_, k in parser_loop_facts(chk)) + "]\n",
+        "-- Generator: unguarded reaches into the node (method, access, arg is required / optional / unknown-class)\n",
+        "def generatorUnguardedOptional : List (String × String) := [\n" + ",\n".join(
+            f"  ({lean_str(f)}, {lean_str(x)})" for f, x, k in generator_access_facts(chk) if k == "optional") + "]\n",
+        "def generatorUnguardedRequired : List (String × String) := [\n" + ",\n".join(
+            f"  ({lean_str(f)}, {lean_str(x)})" for f, x, k in generator_access_facts(chk) if k == "required") + "]\n",
+        f"def generatorUnguardedUnknownClass : Nat := {sum(1 for _, _, k in generator_access_facts(chk) if k == 'unknown-class')}\n",
         "-- Parser glue\n",
         _lean_strs("retreatBody", pf["retreat"]),
         _lean_strs("tryParseFinally", pf["try_finally"]),
@@ -1749,7 +1999,8 @@ def known_prefix(chk: Check, prefix: str, ctx: dict) -> bool:
 
 def consider(chk: Check, sql, dialect, level, write, verdict, tag="search"):
     """turn a failing verdict into a (minimised, keyed) violation report"""
-    ctx = {"phase": verdict["phase"], "parser_errors": bool(verdict["parser_errors"]), "level": level}
+    ctx = {"phase": verdict["phase"], "parser_errors": bool(verdict["parser_errors"]), "level": level,
+           "lenient": level != "IMMEDIATE"}
     if verdict["exc"] == "StepBudget" and verdict["phase"] == "parse":
         verdict = dict(verdict, frame=loop_owner(sql, dialect, level, write, verdict))
     prefix = finding_key(verdict, dialect, None)
@@ -1798,7 +2049,13 @@ def rand_prog(rng, depth=0, wf=False):
             return [k, rng.randint(0, 3), rng.randrange(len(TOKMAP)), "strict" if wf else rng.choice(["strict", "strict", "offByOne", "none"])]
         return [k]
     k = rng.choice(["andThen", "both", "orElse", "attempt", "tryParse", "tryParse", "csv", "csv", "wrapped", "wrapped", "many",
-                    "ifTok", "tableLoop", "tableLoop"])
+                    "ifTok", "tableLoop", "tableLoop", "optionLoop"])
+    if k == "optionLoop":
+        body = rand_prog(rng, depth + 1, wf)
+        if wf or rng.random() < 0.7:
+            body = rng.choice([["tokSet", sorted(set(rng.randrange(len(TOKMAP)) for _ in range(rng.randint(1, 4))))], ["andThen", ["anyTok"], body]])
+        mode = rng.choice(["skip", "breakAfterRaise"]) if wf else rng.choice(["skip", "breakAfterRaise", "relyOnRaise"])
+        return [k, rng.choice([1, 1, 3]), body, mode]
     if k == "ifTok":
         return [k, sorted(set(rng.randrange(len(TOKMAP)) for _ in range(rng.randint(0, 3)))), rand_prog(rng, depth + 1, wf), rand_prog(rng, depth + 1, wf)]
     if k == "tableLoop":
@@ -1880,6 +2137,26 @@ def interp(psr, prog, fuel, TT):
         j = psr._index + prog[1]
         ok = {"strict": j < psr._tokens_size, "offByOne": not (j > psr._tokens_size), "none": True}[prog[3]]
         return ok and psr._tokens[j].token_type == TT[prog[2]]
+    if k == "optionLoop":
+        n = 0
+        while True:
+            if n >= fuel:
+                raise Diverged()
+            n += 1
+            if not (psr._curr and not psr._match(TT[prog[1]])):
+                break
+            x = interp(psr, prog[2], fuel, TT)
+            if x:
+                continue
+            if prog[3] == "skip":
+                if psr._curr:
+                    psr._advance()
+            elif prog[3] == "breakAfterRaise":
+                psr.raise_error("expected an option")
+                break
+            else:
+                psr.raise_error("expected an option")
+        return True
     if k == "restOfChunk":
         while psr._curr:
             psr._advance()
@@ -1977,6 +2254,10 @@ def correspond_programs(chk: Check) -> list:
         (["ifTok", [5], ["tok", 3], ["ifTok", [6], ["restOfChunk"], ["tok", 3]]], [6, 1, 1, 1], "RAISE"),
         (["both", ["restOfChunk"], ["restOfChunk"]], [3, 3], "IMMEDIATE"),
         (["both", ["tok", 9], ["peekAt", 3, 0, "offByOne"]], [9, 5, 6, 7], "IMMEDIATE"),
+        (["both", ["tok", 0], ["optionLoop", 1, ["tok", 7], "skip"]], [0, 7, 9, 7, 1, 3], "WARN"),
+        (["both", ["tok", 0], ["optionLoop", 1, ["tok", 7], "breakAfterRaise"]], [0, 7, 9, 7, 1, 3], "WARN"),
+        (["optionLoop", 1, ["nothing"], "relyOnRaise"], [5], "RAISE"),
+        (["optionLoop", 1, ["nothing"], "relyOnRaise"], [5], "IMMEDIATE"),
         (["both", ["tok", 9], ["peekAt", 3, 0, "strict"]], [9, 5, 6, 7], "RAISE"),
         (["tryParse", ["peekAt", 2, 3, "none"], False], [3], "WARN"),
         (["andThen", ["pair", 3, 4], ["anyTok"]], [3, 4], "RAISE"),
@@ -2278,6 +2559,7 @@ def search(chk: Check, hints: list, budget_s: float) -> None:
     t0 = time.time()
     tried = failing = 0
     MAXV = int(os.environ.get("C05_MAX_VIOLATIONS", "8"))
+    gen_families: dict = {}
     breaches: dict = {}
     maxr = {"parse_lin": 0.0, "parse_quad": 0.0, "tok": 0.0, "gen": 0.0, "work": 0.0}
     corpus = []
@@ -2318,6 +2600,9 @@ def search(chk: Check, hints: list, budget_s: float) -> None:
             if breaches[(b["table"], b["key"], b["parser"])] == 1:
                 chk.correspondence_broken("dispatch-table entry returned a truthy result without progress (hypothesis of table_loop_terminates)",
                                           {"sql": sql, "dialect": d, "level": lvl, **b})
+        if not v["ok"] and v["phase"] == "generate":
+            fam = f"{v['exc']}|{v['frame']}|{'incomplete' if v['parser_errors'] else 'error-free'}"
+            gen_families[fam] = gen_families.get(fam, 0) + 1
         if not v["ok"]:
             failing += 1
             consider(chk, sql, d, lvl, write, v)
@@ -2341,6 +2626,18 @@ def search(chk: Check, hints: list, budget_s: float) -> None:
         one(sql, d, LEVELS[i % 4], None, "prefix-sweep")
         n_pre += 1
     chk.cov["prefix_sweep_inputs"] = n_pre
+    # the generator side: trees the parser returns at IGNORE for incomplete input (every k-th prefix of the corpus, parsed in
+    # the base dialect) pushed through EVERY dialect's generator; leaks are tallied by crash-site family
+    pre_all = [sql for j, (sql, d) in enumerate(prefix_sweep([""], True)) if d == "" and not sql.endswith("; SELECT 2")]
+    step_k = max(1, len(pre_all) // chk.pick(90, 900))
+    n_inc = 0
+    for sql in pre_all[::step_k]:
+        for d in dialects:
+            if len(chk.violations) >= MAXV or time.time() - t0 > budget_s:
+                break
+            one(sql, "", "IGNORE", d, "incomplete-tree-generate")
+            n_inc += 1
+    chk.cov["incomplete_tree_generate_runs"] = n_inc
     # tokenizer-only phase: adversarial delimiter / keyword-case stream and length stress, per dialect, from the live tables
     n_tok = 0
     stress_dialects = dialects if not chk.quick else sorted({"", "dune"} & set(dialects)) + rng.sample(dialects, min(3, len(dialects)))
@@ -2399,6 +2696,7 @@ def search(chk: Check, hints: list, budget_s: float) -> None:
         lv = LEVELS if rng.random() < 0.25 else [rng.choice(LEVELS)]
         for lvl in lv:
             one(sql, d, lvl, write, kind)
+    chk.cov["generator_leak_families"] = dict(sorted(gen_families.items(), key=lambda kv: -kv[1])[:60])
     chk.cov["calibration"] = {"K_PARSE": K_PARSE, "K_TOKENIZE": K_TOKENIZE, "K_GENERATE": K_GENERATE,
                               "max_parser_steps_per_token": round(maxr["parse_lin"], 2),
                               "max_parser_steps_per_token_squared": round(maxr["parse_quad"], 3),
